@@ -45,6 +45,18 @@ add('C14',
     'Trusts the frozen signature table (Python 3.12 library reference) and that type registries are empty for ordinary values; does not compare values, laziness or exception types at run time.',
     'DESIGN.md section 4, C14')
 
+add('C09',
+    'CFG dominance (erasure before transformation), loop-shape check of the erasure, argument-flow check of instantiate() call and of types.FunctionType construction, reaching definitions of the closure tuple (name-keyed lookup), template model of the two-factory wrapper, who-may-assign check on parameter lists across all converter handlers',
+    'Decides the structural mechanism behind interface preservation: defaults are erased on every path before any pass sees the tree and the erasure walks both lists completely; every result is instantiated from the requesting function\'s own __globals__/__closure__/__defaults__/__kwdefaults__; the new function is bound afresh on each request with globals = the argument and cells looked up by name over the factory code\'s free variables; defaults reattached as the same objects; factory template declares every closure variable and returns the entity by name; no converter rebuilds a parameter list; decorators dropped only at top level; bound instance prepended under an identity test.',
+    'Trusts types.FunctionType and the interpreter\'s cell semantics; does not decide call binding at run time.',
+    'DESIGN.md section 4, C09')
+
+add('C10',
+    'typestate/dominance on the statement CFG of PyToPy.transform_function (stores, transformation and create() inside the lock and behind a re-check; store dominated by create()), key-function and weak-dictionary checks, who-may-write check on the cached factory, argument flow of instantiate(), lock-order graph over the resolved call graph',
+    'Decides the necessary structure of a coherent once-only thread-safe cache: double-checked locking with the factory published only after it is complete, lock-free path read-only; key is the code object in a WeakKeyDictionary, subkey the complete options value (C20 shows its eq/hash cover all fields); the cached factory is never written by instantiate() and is built from code-object data only, each request binds it to its own globals/closure/defaults; negative cache keyed by function object and options; lock order cache-lock -> linecache-lock is acyclic.',
+    'Histories and schedules are not enumerated: these are necessary conditions (each one\'s violation gives a concrete failing interleaving), not a proof of linearizability. Trusts threading.RLock and WeakKeyDictionary.',
+    'DESIGN.md section 4, C10')
+
 NOT_APPLICABLE = {
     'C12': 'quantifies over run-time tracebacks, generated line layout and source-map contents, which exist only after the pipeline has run on a program; the only shape-level clause (exception re-creation table) is too small a part to claim the property through (DESIGN.md section 5)',
 }
